@@ -150,7 +150,8 @@ INT_TOKENS = ["0", "1", "-1", "+1", "-0", "+0", "007", "-007", "1844674407370955
               "abc", "12abc", "12.5", "1e5", "0x10", " 12", "\t-12", "- 5", "5-", "5+3", "1_000", ".5"]
 FLOAT_TOKENS = ["0", "-0", "+0", "0.0", "-0.0", "000", "0.", ".0", ".", "-.", "5.", ".5", "-.5e1", "+.5E-1", "1e", "1e+", "1e-",
                 "1ex", "1e+5", "1E5", "1e05", "1e5e5", "1.5.2", "0x10", "0x", "inf", "-inf", "+inf", "infinity", "in", "i",
-                "INF", "Inf", "NaN", "-NaN", "+NaN", "NaNx", "NaN5", "nan", "nanx", "Na", "N", "1e400", "-1e400", "1e-400",
+                "INF", "Inf", "NaN", "-NaN", "+NaN", "NaNx", "NaN5", "nan", "nanx", "Na", "N", "Nan", "NAN", "NaNNaN", "NaN 1.5", "NaN\t-2",
+                "NaN NaN", " NaN", "\tNaN x", " -NaN", "NaN.", "NaNe5", "NaN-1", "infNaN", "inf 2", "1e400", "-1e400", "1e-400",
                 "-1e-400", "1e99999999999", "1e-99999999999", "0e99999999999", "123456789012345678901234567890",
                 "0.000000000000000000000000000000000000000000001", "1,5", "- 5", "-", "+", "e5", "E", "-e", "x", "1x",
                 " 1.5", "\t-2.5e-3", "1.7976931348623157e308", "1.7976931348623159e308", "4.9e-324", "2.4e-324",
@@ -527,7 +528,8 @@ def run_inner(ctx):
         "the rounding of StringToFloat/StringToDouble are trusted third-party algorithms; exercised exhaustively for float32 in "
         "the thorough tier, by classes for double",
         "harness compiled like a user build (-DNDEBUG): double-conversion's StringBuilder bounds asserts are off",
-        "NaN: text 'NaN' for every payload; FilePiece reads it back as a NaN only when it is the last token of its window",
+        "NaN: text 'NaN' for every payload (value-level round trip only); since /repo a461449 FilePiece reads 'NaN' back "
+        "as a NaN wherever it stands in the window (the enumeration reads every NaN pattern back inside a batch)",
         "x86-64: ToString(uint64_t) takes the SSE2 path (regenerated sse2Path)",
     ]
     flow.report_obligation_failures(ctx, problems, found)
